@@ -61,119 +61,127 @@ def _get(m, cname, name):
     return fi
 
 
+def check_op(ctx, m, rule_a, rule_d, rescls, defcls, name, assume, exempt):
+    fi = _get(m, defcls, name)
+    ctx.saw(fi)
+    cls = m.cls(rescls)
+    it = Interp(m)
+    params = [p.lstrip("*") for p in fi.params() if p not in ("self", "cls")]
+    args = {"self": AV({"self"})}
+    for p in params:
+        args[p] = AV() if p in assume else AV({p})
+    for p in fi.params():
+        if p.startswith("**"):
+            args[p[2:]] = AV()
+        elif p.startswith("*"):
+            args[p[1:]] = AV()
+    problems = []
+    writes = []
+    n_ret = [0]
+
+    def on_return(path, ret, val, env, _ex=exempt, _problems=problems, _n=n_ret, _fi=fi):
+        conds = {(U(s[1]), s[2]) for s in path if s[0] == "cond"}
+        if any((t, True) in conds for t in _ex):
+            return
+        _n[0] += 1
+        foreign = lambda toks: {t for t in toks if t}  # every token is an alias of a source
+        if val.comps is not None and val.kind == "hist":
+            if val.aliases:
+                _problems.append(f"`{U(ret)}` may return the source object itself ({describe(val.aliases)})")
+            for comp in MUTABLE_COMPS + ["histograms[*]"]:
+                toks = foreign(val.comps.get(comp, E))
+                if toks:
+                    _problems.append(f"component {comp} of the result returned by `{U(ret)}` aliases {describe(toks)}")
+        else:
+            toks = set(val.aliases)
+            if val.comps is not None and val.kind == "list":
+                toks |= set(val.comps.get("[*]", E))
+            if toks:
+                _problems.append(f"`{U(ret)}` returns a value sharing storage/identity with {describe(toks)}")
+
+    def on_store(st, target, val, env, how, _writes=writes):
+        base = target
+        while isinstance(base, (ast.Subscript, ast.Attribute)):
+            base = base.value
+        if isinstance(base, ast.Name):
+            root = env.get(base.id)
+            if root is not None and any("." not in t and "[" not in t for t in root.aliases) and root.comps is None:
+                _writes.append(f"`{U(st)[:80]}` writes to operand {describe(root.aliases)}")
+            elif root is not None and not isinstance(target, ast.Name) and root.comps is None and root.aliases:
+                _writes.append(f"`{U(st)[:80]}` writes into storage shared with {describe(root.aliases)}")
+
+    def on_mutate(call, recv, mname, cur, _writes=writes):
+        ident = {t for t in recv.aliases if "." not in t and "[" not in t}
+        if ident and recv.comps is None:
+            _writes.append(f"`{U(call)[:80]}` mutates operand {describe(ident)} ({mname})")
+        elif recv.comps is None and recv.aliases:
+            _writes.append(f"`{U(call)[:80]}` mutates an object shared with {describe(recv.aliases)} ({mname})")
+
+    it.on_mutate = on_mutate
+    it.run_function(fi, cls, args, dict(assume), 0, on_return, on_store)
+    key = f"{rescls}:{defcls}.{name}" + ("" if not assume else "(" + ",".join(f"{k}={v}" for k, v in assume.items()) + ")")
+    if n_ret[0] == 0:
+        ctx.bad(rule_a, key, "no (non-exempt) return path could be analysed", fi.where)
+    else:
+        ctx.check(not problems, rule_a, key, f"{n_ret[0]} return path(s): all components fresh",
+                  " ; ".join(sorted(set(problems))[:4]), fi.where)
+    ctx.check(not writes, rule_d, key, "no write to / mutation of an operand",
+              " ; ".join(sorted(set(writes))[:4]), fi.where)
+
+
+
+def check_inplace(ctx, m, rule_d, defcls, name):
+    fi = _get(m, defcls, name)
+    ctx.saw(fi)
+    for rescls in ("Histogram1D", "HistogramND"):
+        cls = m.cls(rescls)
+        it = Interp(m)
+        p = [x for x in fi.params() if x != "self"][0]
+        captured, mutated = [], []
+
+        def on_store(st, target, val, env, how, _c=captured, _p=p):
+            base = target
+            while isinstance(base, (ast.Subscript,)):
+                base = base.value
+            if isinstance(base, ast.Attribute) and U(base.value) == "self":
+                toks = set(val.aliases)
+                if val.comps is not None and val.kind == "list":
+                    toks |= set(val.comps.get("[*]", E))
+                bad = {t for t in toks if t == _p or t.startswith(_p + ".")}
+                if bad and how == "store":
+                    _c.append(f"`{U(st)[:80]}` stores a reference to the operand ({describe(bad)}) in self")
+            root = base
+            while isinstance(root, (ast.Attribute, ast.Subscript)):
+                root = root.value
+            if isinstance(root, ast.Name) and root.id in env and not isinstance(target, ast.Name):
+                r = env[root.id]
+                if r.comps is None and (_p in r.aliases):
+                    mutated.append(f"`{U(st)[:80]}` writes to the operand `{_p}`")
+
+        def on_mutate(call, recv, mname, cur, _m=mutated, _p=p):
+            if recv.comps is None and _p in recv.aliases:
+                _m.append(f"`{U(call)[:80]}` mutates the operand `{_p}` ({mname})")
+            elif recv.comps is None and any(t.startswith(_p + ".") for t in recv.aliases):
+                _m.append(f"`{U(call)[:80]}` mutates a component of the operand ({describe(recv.aliases)})")
+
+        it.on_mutate = on_mutate
+        it.run_function(fi, cls, {"self": AV({"self"}), p: AV({p})}, {}, 0, None, on_store)
+        key = f"{rescls}:{defcls}.{name}"
+        ctx.check(not captured and not mutated, rule_d, key,
+                  "stores only fresh values in self and never touches the operand",
+                  " ; ".join(sorted(set(captured + mutated))[:4]), fi.where)
+
+
+
 def run(ctx):
     m = ctx.model
     ctx.rule("C12.a", "every mutable component of the histogram returned by a public non-in-place operation is FRESH", 25)
     ctx.rule("C12.d", "non-in-place operations never write to / mutate their operands; in-place operators never "
              "store a reference to their operand", 25)
     for rescls, defcls, name, assume, exempt in OPS:
-        fi = _get(m, defcls, name)
-        ctx.saw(fi)
-        cls = m.cls(rescls)
-        it = Interp(m)
-        params = [p.lstrip("*") for p in fi.params() if p not in ("self", "cls")]
-        args = {"self": AV({"self"})}
-        for p in params:
-            args[p] = AV() if p in assume else AV({p})
-        for p in fi.params():
-            if p.startswith("**"):
-                args[p[2:]] = AV()
-            elif p.startswith("*"):
-                args[p[1:]] = AV()
-        problems = []
-        writes = []
-        n_ret = [0]
-
-        def on_return(path, ret, val, env, _ex=exempt, _problems=problems, _n=n_ret, _fi=fi):
-            conds = {(U(s[1]), s[2]) for s in path if s[0] == "cond"}
-            if any((t, True) in conds for t in _ex):
-                return
-            _n[0] += 1
-            foreign = lambda toks: {t for t in toks if t}  # every token is an alias of a source
-            if val.comps is not None and val.kind == "hist":
-                if val.aliases:
-                    _problems.append(f"`{U(ret)}` may return the source object itself ({describe(val.aliases)})")
-                for comp in MUTABLE_COMPS + ["histograms[*]"]:
-                    toks = foreign(val.comps.get(comp, E))
-                    if toks:
-                        _problems.append(f"component {comp} of the result returned by `{U(ret)}` aliases {describe(toks)}")
-            else:
-                toks = set(val.aliases)
-                if val.comps is not None and val.kind == "list":
-                    toks |= set(val.comps.get("[*]", E))
-                if toks:
-                    _problems.append(f"`{U(ret)}` returns a value sharing storage/identity with {describe(toks)}")
-
-        def on_store(st, target, val, env, how, _writes=writes):
-            base = target
-            while isinstance(base, (ast.Subscript, ast.Attribute)):
-                base = base.value
-            if isinstance(base, ast.Name):
-                root = env.get(base.id)
-                if root is not None and any("." not in t and "[" not in t for t in root.aliases) and root.comps is None:
-                    _writes.append(f"`{U(st)[:80]}` writes to operand {describe(root.aliases)}")
-                elif root is not None and not isinstance(target, ast.Name) and root.comps is None and root.aliases:
-                    _writes.append(f"`{U(st)[:80]}` writes into storage shared with {describe(root.aliases)}")
-
-        def on_mutate(call, recv, mname, cur, _writes=writes):
-            ident = {t for t in recv.aliases if "." not in t and "[" not in t}
-            if ident and recv.comps is None:
-                _writes.append(f"`{U(call)[:80]}` mutates operand {describe(ident)} ({mname})")
-            elif recv.comps is None and recv.aliases:
-                _writes.append(f"`{U(call)[:80]}` mutates an object shared with {describe(recv.aliases)} ({mname})")
-
-        it.on_mutate = on_mutate
-        it.run_function(fi, cls, args, dict(assume), 0, on_return, on_store)
-        key = f"{rescls}:{defcls}.{name}" + ("" if not assume else "(" + ",".join(f"{k}={v}" for k, v in assume.items()) + ")")
-        if n_ret[0] == 0:
-            ctx.bad("C12.a", key, "no (non-exempt) return path could be analysed", fi.where)
-        else:
-            ctx.check(not problems, "C12.a", key, f"{n_ret[0]} return path(s): all components fresh",
-                      " ; ".join(sorted(set(problems))[:4]), fi.where)
-        ctx.check(not writes, "C12.d", key, "no write to / mutation of an operand",
-                  " ; ".join(sorted(set(writes))[:4]), fi.where)
-
-    # in-place operators: stores into self must not capture the operand, the operand is never mutated
+        check_op(ctx, m, "C12.a", "C12.d", rescls, defcls, name, assume, exempt)
     for defcls, name in INPLACE:
-        fi = _get(m, defcls, name)
-        ctx.saw(fi)
-        for rescls in ("Histogram1D", "HistogramND"):
-            cls = m.cls(rescls)
-            it = Interp(m)
-            p = [x for x in fi.params() if x != "self"][0]
-            captured, mutated = [], []
-
-            def on_store(st, target, val, env, how, _c=captured, _p=p):
-                base = target
-                while isinstance(base, (ast.Subscript,)):
-                    base = base.value
-                if isinstance(base, ast.Attribute) and U(base.value) == "self":
-                    toks = set(val.aliases)
-                    if val.comps is not None and val.kind == "list":
-                        toks |= set(val.comps.get("[*]", E))
-                    bad = {t for t in toks if t == _p or t.startswith(_p + ".")}
-                    if bad and how == "store":
-                        _c.append(f"`{U(st)[:80]}` stores a reference to the operand ({describe(bad)}) in self")
-                root = base
-                while isinstance(root, (ast.Attribute, ast.Subscript)):
-                    root = root.value
-                if isinstance(root, ast.Name) and root.id in env and not isinstance(target, ast.Name):
-                    r = env[root.id]
-                    if r.comps is None and (_p in r.aliases):
-                        mutated.append(f"`{U(st)[:80]}` writes to the operand `{_p}`")
-
-            def on_mutate(call, recv, mname, cur, _m=mutated, _p=p):
-                if recv.comps is None and _p in recv.aliases:
-                    _m.append(f"`{U(call)[:80]}` mutates the operand `{_p}` ({mname})")
-                elif recv.comps is None and any(t.startswith(_p + ".") for t in recv.aliases):
-                    _m.append(f"`{U(call)[:80]}` mutates a component of the operand ({describe(recv.aliases)})")
-
-            it.on_mutate = on_mutate
-            it.run_function(fi, cls, {"self": AV({"self"}), p: AV({p})}, {}, 0, None, on_store)
-            key = f"{rescls}:{defcls}.{name}"
-            ctx.check(not captured and not mutated, "C12.d", key,
-                      "stores only fresh values in self and never touches the operand",
-                      " ; ".join(sorted(set(captured + mutated))[:4]), fi.where)
+        check_inplace(ctx, m, "C12.d", defcls, name)
 
     # ---- C12.b copy completeness ----------------------------------------------------------------
     ctx.rule("C12.b", "copy() definitely assigns, on every path, every instance attribute the __init__ chain assigns", 4)
